@@ -367,10 +367,11 @@ var treeFindings = func() map[string]bool {
 		"reboot-failed:process-crash:non-prunable-table-nonzero-tail",
 		// C39
 		"reboot-canon-gap:reorg-deletes-old-index-before-moving-head",
+		"reboot-hang:reset-inside-repair-locks-chainmu-twice",
 		"reboot-log-crit:pathdb-gap-between-state-and-state-history",
 		"reboot-canon-receipts-missing:unexecuted-sidechain-block-canonicalised",
 		"reboot-panic:reset-on-missing-head-block-dereferences-nil-current-block",
-		"reboot-open-failed:reorg-deleted-canonical-hash-1-before-moving-head",
+		"reboot-open-failed:reorg-deletes-old-index-before-moving-head",
 		"reboot-head-state-missing:sethead-to-genesis-interrupted-before-state-recovery",
 		"reboot-canon-block-missing:partially-synced-freezer-tables-taken-for-pruned-history",
 		"reboot-head-state-missing:genesis-block-written-before-async-state-flush",
